@@ -31,9 +31,9 @@ RULE = ("run i = 10 telegrams sent by a real node to keyed addresses (APDU lengt
 REAL = ["xknx.secure.data_secure.DataSecure.outgoing_cemi (public send path)", "xknx.secure.data_secure_asdu.SecureData / block_0 / "
         "counter_0", "xknx.secure.security_primitives", "xknx.cemi.CEMIFrame codec", "xknx.cemi.CEMIHandler (receiver)"]
 STUB = ["reference implementation (sim.crypto)", "KNXIPInterface stubs", "loop (SimLoop)"]
-ASSUMPTIONS = ["non-zero TPCI values (tag group, connected) are compared but only reported as a probe: xknx puts "
-               "(tpci_octet << 2) + 3 into block 0 where this reference puts tpci_octet | 3 - identical for TPCI 0, the only value "
-               "the running system emits and the only one a real-world vector exists for",
+ASSUMPTIONS = ["block 0 carries the transport control octet as transmitted (its six TPCI bits in place) or'ed with the two high bits of "
+               "the secure APCI - the only reading under which the octet is defined for every TPCI value; a real-world vector "
+               "exists for TPCI 0 only",
                "verdict is for authenticated encryption (anchored on a real ETS frame); for the authentication-only algorithm no "
                "real-world vector exists in the tree, so a difference there is reported as a probe, not a violation",
                "emission through the running system is exercised for what it emits: group destination, encryption, T_Data_Group"]
@@ -55,7 +55,7 @@ def run(plan: dict[str, Any]) -> dict[str, Any]:
     from xknx.cemi.flags import CEMIAddressType, CEMIFrameFormat
     from xknx.dpt import DPTArray, DPTBinary
     from xknx.secure.data_secure_asdu import SecureData, SecurityControlField
-    from xknx.telegram import GroupAddress, Telegram
+    from xknx.telegram import GroupAddress, IndividualAddress, Telegram
     from xknx.telegram.apci import GroupValueRead, GroupValueResponse, GroupValueWrite
     from xknx.telegram.tpci import TDataGroup, TPCI
 
@@ -74,6 +74,9 @@ def run(plan: dict[str, Any]) -> dict[str, Any]:
     wire: list[bytes] = []
     abstract: list[Any] = []
     compared = [0]
+    ia2, ia3 = (ia % 0xFFF0) + 5, (ia % 0xFFF0) + 7
+    switch_at = rng.choice([None, None, 3, 5, 8])
+    srcs = [ia]
 
     async def main():
         await tx.xknx.start()
@@ -95,7 +98,19 @@ def run(plan: dict[str, Any]) -> dict[str, Any]:
                 apdu = bytes((0x00, 0x80 if kind == "write" else 0x40)) + data
                 payload = (GroupValueWrite if kind == "write" else GroupValueResponse)(DPTArray(tuple(data)))
             expected_apdus.append((dst, apdu))
-            tx.xknx.telegrams.put_nowait(Telegram(destination_address=GroupAddress(dst), payload=payload))
+            if j == switch_at:
+                # the interface got another individual address (tunnel re-established, gateway assigned a different one):
+                # the same Data Secure object goes on sending, now from that address
+                await asyncio.sleep(1.0)
+                tx.xknx.current_address = IndividualAddress(ia2)
+                srcs.append(ia2)
+                R.extra_faults["own_address_changed_between_frames"] += 1
+            src_ = None
+            if rng.random() < 0.15:
+                src_ = rng.choice([ia, ia2, ia3])     # a telegram that names its source itself
+                srcs.append(src_)
+            tx.xknx.telegrams.put_nowait(Telegram(destination_address=GroupAddress(dst), payload=payload,
+                                                  **({"source_address": IndividualAddress(src_)} if src_ else {})))
             abstract.append(("send", kind, ln))
         await asyncio.sleep(2.0)
         # reference-made frames of this run's lengths are accepted by a real receiver
@@ -132,7 +147,7 @@ def run(plan: dict[str, Any]) -> dict[str, Any]:
         if ps["asdu"] != want:
             R.violate("C19.conformance", "wire-bytes!=reference",
                       f"APDU {apdu.hex()[:24]} len {len(apdu)} seq {ps['seq']}: wire {ps['asdu'].hex()[:60]} reference {want.hex()[:60]}")
-        if ps["src"] != ia or ps["dst"] != dst or ps["scf"] != 0x10:
+        if ps["src"] not in srcs or ps["dst"] != dst or ps["scf"] != 0x10:
             R.violate("C19.conformance", "header-fields", f"src {ps['src']:04x} dst {ps['dst']:04x} scf {ps['scf']:02x}")
         if ps["len"] != len(ps["tpdu"]) - 1:
             R.violate("C19.conformance", "npdu-length-octet", raw.hex())
@@ -172,16 +187,17 @@ def run(plan: dict[str, Any]) -> dict[str, Any]:
                 address_type=CEMIAddressType.GROUP if group else CEMIAddressType.INDIVIDUAL,
                 frame_format=ff, tpci=tpci)
         except Exception as exc:  # pylint: disable=broad-except
-            R.probes["init_from_plain_apdu_raised_" + type(exc).__name__] += 1
+            # the primitive is defined for every TPCI value the type system lets in
+            R.violate("C19.conformance", f"init_from_plain_apdu-raised:{type(exc).__name__}",
+                      f"scf {scf:02x} len {ln} group {group} tpci {tp:02x}: {exc!r}")
             continue
         ext_used = int(ff)   # the value the caller handed to the primitive
-        want = C.ds_secure(keys[gas[0]], apdu, scf, seq, src, dst, group, ext_used, tpci.to_knx() << 2 if False else _tp_octet(tpci))
+        want = C.ds_secure(keys[gas[0]], apdu, scf, seq, src, dst, group, ext_used, _tp_octet(tpci))
         compared[0] += 1
+        if tp != 0:
+            R.probes["nonzero_tpci_compared"] += 1
         if sd.to_knx() != want:
-            if tp != 0:
-                # no real-world vector with a non-zero TPCI exists offline: cannot be adjudicated, recorded only
-                R.probes["nonzero_tpci_differs_from_unanchored_reference"] += 1
-            elif algo == 1:
+            if algo == 1:
                 R.violate("C19.conformance", "init_from_plain_apdu!=reference",
                           f"scf {scf:02x} len {ln} group {group} ext {ext_used} tpci {tp:02x}: {sd.to_knx().hex()[:60]} vs {want.hex()[:60]}")
             else:
@@ -194,6 +210,4 @@ def run(plan: dict[str, Any]) -> dict[str, Any]:
 
 def _tp_octet(tpci) -> int:
     """TPCI octet (upper six bits) as the reference expects it, derived from the xknx TPCI object's own serialisation."""
-    v = tpci.to_knx()
-    # xknx's block_0 uses (tpci.to_knx() << 2) + 0x03 truncated to one octet
-    return (v << 2) & 0xFC
+    return tpci.to_knx() & 0xFC
